@@ -368,24 +368,25 @@ class Polygon(Shape2D):
         # axis theorem can be applied in the reverse direction (rotating about
         # the origin before translating to the actual centroid).
         original_center = self.center.copy()
-        original_vertices = self._vertices.copy()
-        original_normal = self._normal.copy()
+        original_vertices = self._vertices
+        original_normal = self._normal
 
-        self.center = (0, 0, 0)
         mat, _ = rowan.mapping.kabsch(
             [self.normal, -self.normal], [[0, 0, 1], [0, 0, -1]]
         )
-        self._vertices = self._vertices.dot(mat.T)
-        self._normal = np.asarray([0, 0, 1])
+        try:
+            # Work on new arrays: the caller may hold the array returned by
+            # ``vertices``, which must not be moved.
+            self._vertices = (self._vertices - original_center).dot(mat.T)
+            self._normal = np.asarray([0, 0, 1])
 
-        inertia_tensor = np.diag([0, 0, self.polar_moment_inertia])
-        shifted_inertia_tensor = translate_inertia_tensor(
-            original_center, rotate_order2_tensor(mat.T, inertia_tensor), self.area
-        )
-
-        self.center = original_center
-        self._vertices = original_vertices
-        self._normal = original_normal
+            inertia_tensor = np.diag([0, 0, self.polar_moment_inertia])
+            shifted_inertia_tensor = translate_inertia_tensor(
+                original_center, rotate_order2_tensor(mat.T, inertia_tensor), self.area
+            )
+        finally:
+            self._vertices = original_vertices
+            self._normal = original_normal
 
         return shifted_inertia_tensor
 
